@@ -943,10 +943,17 @@ structure G where
   /-- peripheral events produced by the callbacks / handed out by `take_last_events`, oldest first -/
   produced : List HEvent := []
   taken : List HEvent := []
-  /-- sticky: `reset_address()` hit the peripheral whose request was in flight, or whose event was still
-  waiting in `last_events`.  The bookkeeping theorems of C03 / C08 / C14 are stated for histories
-  without that; no-panic, termination and the process-image clauses hold regardless. -/
+  /-- sticky: `reset_address()` gave the peripheral whose request is in flight the very address the reply
+  is outstanding from (so that the reply to the OLD incarnation's request will be delivered to the fresh
+  one).  The bookkeeping theorems of C03 / C08 / C14 are stated for histories without that; a reset to
+  any other address — in flight or not — leaves them intact (the reply in flight is simply ignored);
+  no-panic, termination and the process-image clauses hold regardless. -/
   tainted : Bool := false
+  /-- the peripheral event waiting in `last_events` belongs to an incarnation of the peripheral that has
+  since been reset by `reset_address()`: the next `take_last_events` hands it out, but it says nothing
+  about the fresh peripheral — the life-cycle bookkeeping (`sgTake`) skips it.  Cleared whenever
+  `last_events` is written afresh (every `transmit_telegram`, every delivered reply) or taken. -/
+  staleEv : Bool := false
 
 inductive Res3 (α : Type)
   | ok (a : α)
@@ -1022,10 +1029,18 @@ def replyAllowed (own a : UInt8) : Telegram → Bool
       (match h.fc with | .response _ _ => true | .request _ _ => false)
   | .token _ _ => false
 
-/-- `reset_address()` of `slot` meets a request in flight to that peripheral, or an uncollected event of it. -/
-def resetTaints (g : G) (slot : Nat) : Bool :=
-  (g.out.isSome && (match g.m.cur with | some (i, _) => i == slot | none => false)) ||
-  (match g.m.lastEvents.peripheral with | some he => he.index == slot | none => false)
+/-- `reset_address(a)` of `slot` meets a request in flight to that peripheral AND `a` is the address
+the reply is outstanding from. -/
+def resetInFlight (g : G) (slot : Nat) (a : UInt8) : Bool :=
+  match g.out, g.m.cur with
+  | some ao, some (i, _) => i == slot && a == ao
+  | _, _ => false
+
+/-- `reset_address()` of `slot` meets an uncollected event of that peripheral. -/
+def resetStaleEv (g : G) (slot : Nat) : Bool :=
+  match g.m.lastEvents.peripheral with
+  | some he => he.index == slot
+  | none => false
 
 def gstep (fp : FdlParams) (g : G) : Op → Res3 G
   | .tx now hp =>
@@ -1035,12 +1050,13 @@ def gstep (fp : FdlParams) (g : G) : Op → Res3 G
     | .hang => .hang
     | .none m' =>
       let g1 : G := { g with m := m', out := none, o := .idle, now := some now,
-                             collected := g.collected && !g.dirty, dirty := true }
+                             collected := g.collected && !g.dirty, dirty := true, staleEv := false }
       match m'.lastEvents.peripheral with
       | some he => .ok { g1 with sg := g.upd he.index sgOffline, produced := g.produced ++ [he] }
       | none => .ok g1
     | .send m' h pdu =>
-      let g1 : G := { g with m := m', now := some now, collected := g.collected && !g.dirty, dirty := true }
+      let g1 : G := { g with m := m', now := some now, collected := g.collected && !g.dirty, dirty := true,
+                             staleEv := false }
       if h.dsap = SAP_SLAVE_GLOBAL_CONTROL then .ok { g1 with out := none, o := .gc h pdu }
       else
         match m'.cur with
@@ -1051,7 +1067,8 @@ def gstep (fp : FdlParams) (g : G) : Op → Res3 G
     match Master.receiveReply g.m a t with
     | .panic => .panic
     | .ok m' =>
-      let g1 : G := { g with m := m', out := none, collected := g.collected && !g.dirty, dirty := true }
+      let g1 : G := { g with m := m', out := none, collected := g.collected && !g.dirty, dirty := true,
+                             staleEv := false }
       match g.m.cur with
       | some (i, p) =>
         if p.address ≠ a then .ok { g with out := none, o := .ignored } else
@@ -1066,9 +1083,10 @@ def gstep (fp : FdlParams) (g : G) : Op → Res3 G
   | .take =>
     let (m', e) := g.m.takeLastEvents
     let sg' := match e.peripheral with
-      | some he => g.upd he.index (sgTake he.ev)
+      | some he => if g.staleEv then g.sg else g.upd he.index (sgTake he.ev)
       | none => g.sg
-    .ok { g with m := m', o := .taken e, dirty := false, sg := sg', taken := g.taken ++ e.peripheral.toList }
+    .ok { g with m := m', o := .taken e, dirty := false, sg := sg', taken := g.taken ++ e.peripheral.toList,
+                 staleEv := false }
   | .writeQ slot bs =>
     match g.m.writePiQ slot bs with
     | some m' => .ok { g with m := m', o := .user }
@@ -1082,7 +1100,8 @@ def gstep (fp : FdlParams) (g : G) : Op → Res3 G
     match g.m.resetAddress slot a with
     | some m' =>
       .ok { g with m := m', o := .user, sg := g.upd slot (fun _ => {}),
-                   tainted := g.tainted || resetTaints g slot }
+                   tainted := g.tainted || resetInFlight g slot a,
+                   staleEv := g.staleEv || resetStaleEv g slot }
     | none => .refused
 
 def grun (fp : FdlParams) (g : G) : List Op → Res3 G
@@ -1105,7 +1124,7 @@ def timeB (t : Int) : Prop := -(2:Int)^62 < t ∧ t < (2:Int)^62
 
 structure Inv (fp : FdlParams) (g : G) : Prop where
   m : MInv fp g.m
-  out : ∀ a, g.out = some a → ∃ i p, g.m.cur = some (i, p) ∧ (g.tainted = false → p.address = a)
+  out : ∀ a, g.out = some a → ∃ i p, g.m.cur = some (i, p)
   gcT : ∀ t, g.m.lastGc = some t → timeB t
 
 /-- Zero or more declines (`retry_count = 0`, nothing else) of the peripheral in one slot. -/
@@ -1291,7 +1310,7 @@ theorem final_cases {fp : FdlParams} (hfp : FpOk fp) {m1 : Master} (hM1 : MInv f
 
 /-- The ghost-free part of a `tx` step that all cases share. -/
 def G.polled (g : G) (now : Int) (m' : Master) : G :=
-  { g with m := m', now := some now, collected := g.collected && !g.dirty, dirty := true }
+  { g with m := m', now := some now, collected := g.collected && !g.dirty, dirty := true, staleEv := false }
 
 theorem timeOk_bound {g : G} {now : Int} (h : timeOk g now = true) : timeB now := by
   unfold timeOk at h
@@ -1411,12 +1430,12 @@ theorem reply_elim {fp : FdlParams} {g g' : G} (hI : Inv fp g) {a : UInt8} {t : 
     (hrep : ∀ index i p p' ev, g.out = some a → g.m.cycle = .dx index → curSlot g.m.slots index = some (i, p) →
       p.address = a → replyAllowed fp.address a t = true → RxSpec p t p' ev →
       P { g with m := afterReply g.m index i p p' ev, out := none,
-                 collected := g.collected && !g.dirty, dirty := true,
+                 collected := g.collected && !g.dirty, dirty := true, staleEv := false,
                  o := .replied i ev, sg := g.upd i (sgReply t p p'),
                  produced := g.produced ++ (ev.map fun e => ({ index := i, address := p.address, ev := e } : HEvent)).toList })
     -- stale reply: the peripheral at the cycle index has another address by now (`reset_address()`)
     (hstale : ∀ index i p, g.out = some a → g.m.cycle = .dx index → curSlot g.m.slots index = some (i, p) →
-      p.address ≠ a → g.tainted = true → P { g with out := none, o := .ignored }) :
+      p.address ≠ a → P { g with out := none, o := .ignored }) :
     P g' := by
   simp only [gstep] at h
   by_cases hc : g.out ≠ some a ∨ replyAllowed fp.address a t = false
@@ -1430,7 +1449,7 @@ theorem reply_elim {fp : FdlParams} {g g' : G} (hI : Inv fp g) {a : UInt8} {t : 
       cases hr : replyAllowed fp.address a t with
       | true => rfl
       | false => exact absurd (Or.inr hr) hc
-    obtain ⟨i, p, hcur, hpa⟩ := hI.out a ho
+    obtain ⟨i, p, hcur⟩ := hI.out a ho
     unfold Master.cur at hcur
     cases hcy : g.m.cycle with
     | completed => rw [hcy] at hcur; cases hcur
@@ -1449,11 +1468,7 @@ theorem reply_elim {fp : FdlParams} {g g' : G} (hI : Inv fp g) {a : UInt8} {t : 
         rw [hrr] at h
         simp only [hcur', ne_eq, hpa', not_false_eq_true, if_true, Res3.ok.injEq] at h
         subst h
-        have ht : g.tainted = true := by
-          cases hgt : g.tainted with
-          | true => rfl
-          | false => exact absurd (hpa hgt) hpa'
-        exact hstale index i p ho hcy hcur hpa' ht
+        exact hstale index i p ho hcy hcur hpa'
       have hpa : p.address = a := Decidable.of_not_not hpa'
       obtain ⟨p', ev, hrx, hspec⟩ := rx_spec hP (rxOk_of_allowed hal)
       have hl : (g.m.slots.set i (some p')).length ≤ 256 := by rw [List.length_set]; exact hI.m.len
@@ -1541,7 +1556,7 @@ theorem gstep_ok {fp : FdlParams} (hfp : FpOk fp) {g : G} (hI : Inv fp g) (op : 
         cases hr : replyAllowed fp.address a t with
         | true => rfl
         | false => exact absurd (Or.inr hr) hc
-      obtain ⟨i, p, hcur, hpa⟩ := hI.out a ho
+      obtain ⟨i, p, hcur⟩ := hI.out a ho
       unfold Master.cur at hcur
       cases hcy : g.m.cycle with
       | completed => rw [hcy] at hcur; cases hcur
@@ -1599,26 +1614,14 @@ theorem cur_of_set {m : Master} {j : Nat} {p0 q : Peripheral} (hj : m.slots[j]? 
   | dx index => simp only; rw [curSlot_set hj]
 
 theorem out_of_set {m : Master} {j : Nat} {p0 q : Peripheral} (hj : m.slots[j]? = some (some p0))
-    (ha : q.address = p0.address) (m' : Master) (hs : m'.slots = m.slots.set j (some q)) (hc : m'.cycle = m.cycle)
-    {a : UInt8} {T : Prop} (h : ∃ i p, m.cur = some (i, p) ∧ (T → p.address = a)) :
-    ∃ i p, m'.cur = some (i, p) ∧ (T → p.address = a) := by
-  obtain ⟨i, p, h1, h2⟩ := h
+    (m' : Master) (hs : m'.slots = m.slots.set j (some q)) (hc : m'.cycle = m.cycle)
+    (h : ∃ i p, m.cur = some (i, p)) : ∃ i p, m'.cur = some (i, p) := by
+  obtain ⟨i, p, h1⟩ := h
   rw [cur_of_set hj m' hs hc, h1]
   simp only [Option.map_some]
   by_cases hij : i = j
-  · subst hij
-    refine ⟨i, q, by simp, ?_⟩
-    unfold Master.cur at h1
-    cases hcy : m.cycle with
-    | completed => rw [hcy] at h1; cases h1
-    | dx index =>
-      rw [hcy] at h1
-      have := (curSlot_spec h1).2.2.1
-      rw [hj] at this
-      simp only [Option.some.injEq] at this
-      subst this
-      rw [ha]; exact h2
-  · exact ⟨i, p, by simp [hij], h2⟩
+  · exact ⟨i, q, by simp [hij]⟩
+  · exact ⟨i, p, by simp [hij]⟩
 
 theorem inv_step {fp : FdlParams} (hfp : FpOk fp) {g g' : G} (hI : Inv fp g) (op : Op)
     (h : gstep fp g op = .ok g') : Inv fp g' := by
@@ -1644,7 +1647,7 @@ theorem inv_step {fp : FdlParams} (hfp : FpOk fp) {g g' : G} (hI : Inv fp g) (op
       · intro a ha
         simp only [Option.some.injEq] at ha
         subst ha
-        exact ⟨i, _, cur_set hc _, fun _ => (send_header hts).2.2.2.2⟩
+        exact ⟨i, _, cur_set hc _⟩
       · intro t ht; simp only [G.polled] at ht; rw [hD.gc] at ht; exact hI.gcT t ht
     · intro m1 index i p hD hM1 hcy hc hr _
       have hi := (curSlot_spec hc).2.2.1
@@ -1665,7 +1668,7 @@ theorem inv_step {fp : FdlParams} (hfp : FpOk fp) {g g' : G} (hI : Inv fp g) (op
       have hi := (curSlot_spec hc).2.2.1
       have hq := rx_pinv hspec (hI.m.pinv i p hi)
       exact ⟨minv_set (i := i) hI.m hq _ rfl rfl, (by intro a h; cases h), hI.gcT⟩
-    · intro index i p _ _ _ _ _
+    · intro index i p _ _ _ _
       exact ⟨hI.m, (by intro a h; cases h), hI.gcT⟩
   | resetAddr slot a =>
     simp only [gstep] at h
@@ -1695,22 +1698,8 @@ theorem inv_step {fp : FdlParams} (hfp : FpOk fp) {g g' : G} (hI : Inv fp g) (op
              by simp only [Peripheral.resetAddress]; exact UInt8.not_le.mp ha⟩
           refine ⟨minv_set (i := slot) hI.m hq _ rfl rfl, ?_, hI.gcT⟩
           intro a' ha'
-          obtain ⟨i, p0, hc0, hp0⟩ := hI.out a' ha'
-          have hcs := cur_of_set hj { g.m with slots := g.m.slots.set slot (some (p.resetAddress a)) } rfl rfl
-          by_cases hij : i = slot
-          · subst hij
-            refine ⟨i, p.resetAddress a, by rw [hcs, hc0]; simp, ?_⟩
-            intro ht
-            -- the reset hit the peripheral in flight: the history is tainted
-            exfalso
-            simp only [Bool.or_eq_false_iff] at ht
-            have h2 := ht.2
-            have ho : g.out = some a' := ha'
-            simp [resetTaints, ho, hc0] at h2
-          · refine ⟨i, p0, by rw [hcs, hc0]; simp [hij], ?_⟩
-            intro ht
-            simp only [Bool.or_eq_false_iff] at ht
-            exact hp0 ht.1
+          exact out_of_set (q := p.resetAddress a) hj { g.m with slots := g.m.slots.set slot (some (p.resetAddress a)) } rfl rfl
+            (hI.out a' ha')
   | timeout a =>
     simp only [gstep] at h
     split at h
@@ -1747,7 +1736,7 @@ theorem inv_step {fp : FdlParams} (hfp : FpOk fp) {g g' : G} (hI : Inv fp g) (op
             ⟨hP.retry_le, hP.off_retry, hP.fcb, hP.ext, hP.prm, hP.cfg, by simp only; rw [hlen]; exact hP.piq, hP.addr⟩
           refine ⟨minv_set (i := slot) hI.m hq _ rfl rfl, ?_, hI.gcT⟩
           intro a ha
-          exact out_of_set (q := { p with piQ := bs }) hj rfl { g.m with slots := g.m.slots.set slot (some { p with piQ := bs }) } rfl rfl (hI.out a ha)
+          exact out_of_set (q := { p with piQ := bs }) hj { g.m with slots := g.m.slots.set slot (some { p with piQ := bs }) } rfl rfl (hI.out a ha)
         · cases hw
   | diagReq slot =>
     simp only [gstep] at h
@@ -1772,7 +1761,7 @@ theorem inv_step {fp : FdlParams} (hfp : FpOk fp) {g g' : G} (hI : Inv fp g) (op
           ⟨hP.retry_le, hP.off_retry, hP.fcb, hP.ext, hP.prm, hP.cfg, hP.piq, hP.addr⟩
         refine ⟨minv_set (i := slot) hI.m hq _ rfl rfl, ?_, hI.gcT⟩
         intro a ha
-        exact out_of_set (q := { p with diagNeeded := true }) hj rfl { g.m with slots := g.m.slots.set slot (some { p with diagNeeded := true }) } rfl rfl (hI.out a ha)
+        exact out_of_set (q := { p with diagNeeded := true }) hj { g.m with slots := g.m.slots.set slot (some { p with diagNeeded := true }) } rfl rfl (hI.out a ha)
 
 /-- Start states: a master in Operate whose slots hold freshly constructed peripherals. -/
 structure InitOk (fp : FdlParams) (slots : List (Option Peripheral)) : Prop where
@@ -1923,7 +1912,7 @@ def Delivered (fp : FdlParams) (g : G) (a : UInt8) (t : Telegram) (g' : G) : Pro
   ∃ index i p p' ev, g.out = some a ∧ g.m.cycle = .dx index ∧ curSlot g.m.slots index = some (i, p) ∧
     p.address = a ∧ replyAllowed fp.address a t = true ∧ RxSpec p t p' ev ∧
     g' = { g with m := afterReply g.m index i p p' ev, out := none,
-                  collected := g.collected && !g.dirty, dirty := true,
+                  collected := g.collected && !g.dirty, dirty := true, staleEv := false,
                   o := .replied i ev, sg := g.upd i (sgReply t p p'),
                   produced := g.produced ++ (ev.map fun e => ({ index := i, address := p.address, ev := e } : HEvent)).toList }
 
@@ -1931,7 +1920,7 @@ def Delivered (fp : FdlParams) (g : G) (a : UInt8) (t : Telegram) (g' : G) : Pro
 in flight): nothing but the contract automaton changes. -/
 def Stale (g : G) (a : UInt8) (g' : G) : Prop :=
   ∃ index i p, g.out = some a ∧ g.m.cycle = .dx index ∧ curSlot g.m.slots index = some (i, p) ∧
-    p.address ≠ a ∧ g.tainted = true ∧ g' = { g with out := none, o := .ignored }
+    p.address ≠ a ∧ g' = { g with out := none, o := .ignored }
 
 /-- `reply_elim` as a disjunction. -/
 theorem reply_cases {fp : FdlParams} {g g' : G} (hI : Inv fp g) {a : UInt8} {t : Telegram}
@@ -1939,21 +1928,8 @@ theorem reply_cases {fp : FdlParams} {g g' : G} (hI : Inv fp g) {a : UInt8} {t :
   refine reply_elim hI h (fun g' => Delivered fp g a t g' ∨ Stale g a g') ?_ ?_
   · intro index i p p' ev h1 h2 h3 h4 h5 h6
     exact Or.inl ⟨index, i, p, p', ev, h1, h2, h3, h4, h5, h6, rfl⟩
-  · intro index i p h1 h2 h3 h4 h5
-    exact Or.inr ⟨index, i, p, h1, h2, h3, h4, h5, rfl⟩
-
-/-- In a history without a reset of the peripheral in flight every reply is delivered. -/
-theorem reply_form {fp : FdlParams} {g g' : G} (hI : Inv fp g) (hu : g.tainted = false) {a : UInt8} {t : Telegram}
-    (h : gstep fp g (.reply a t) = .ok g') :
-    ∃ index i p p' ev, g.out = some a ∧ g.m.cycle = .dx index ∧ curSlot g.m.slots index = some (i, p) ∧
-      p.address = a ∧ replyAllowed fp.address a t = true ∧ RxSpec p t p' ev ∧
-      g' = { g with m := afterReply g.m index i p p' ev, out := none,
-                    collected := g.collected && !g.dirty, dirty := true,
-                    o := .replied i ev, sg := g.upd i (sgReply t p p'),
-                    produced := g.produced ++ (ev.map fun e => ({ index := i, address := p.address, ev := e } : HEvent)).toList } := by
-  rcases reply_cases hI h with hd | ⟨_, _, _, _, _, _, _, ht, _⟩
-  · exact hd
-  · rw [hu] at ht; cases ht
+  · intro index i p h1 h2 h3 h4
+    exact Or.inr ⟨index, i, p, h1, h2, h3, h4, rfl⟩
 
 /-- `tainted` is sticky. -/
 theorem tainted_mono {fp : FdlParams} {g g' : G} (op : Op) (h : gstep fp g op = .ok g')
